@@ -40,6 +40,9 @@ def gen_progs(rng, tier):
         (["createdir 0:j61"], [["create_dir", "a/b"], ["remove_dir", "a/b"]], [["read_dir", "a"], ["exists", "a/b"]]),
         (["createfile 0:j66", "hdrop 1000"], [["append", "f"]], [["append", "f"]]),
         (["createfile 0:j66", "hdrop 1000"], [["create_file", "f"]], [["open_read", "f"], ["metadata", "f"]]),
+        # a writer that publishes late, while the other thread replaces its file by a directory with a child
+        ([], [["create_file", "a"]], [["remove_file", "a"], ["create_dir", "a"], ["create_file", "a/b"]]),
+        (["createfile 0:j61", "hdrop 1000"], [["append", "a"]], [["remove_file", "a"], ["create_dir", "a"], ["create_dir", "a/b"]]),
     ]
     # open_file stamps the access time: with an explicitly set time before, a third thread can tell whether the stamp
     # of an open_file that later fails was visible (repaired by e051178: stamp and read under one lock)
